@@ -23,6 +23,8 @@ package raft
 //@ ghost answered map[int]bool
 // ioOK: storage and codec calls succeed (only assumed in no-abort obligations).
 //@ ghost ioOK bool
+// logOpen: the Log has been opened (Open+Replay) and not closed since.
+//@ ghost logOpen bool
 // now: the wall clock (monotone; advanced by every time.Now/time.Since).
 //@ ghost now int
 
@@ -43,14 +45,19 @@ package raft
 //@ spec inLog(i) = Lfirst < i && i <= Llast
 
 //@ iface Log.LastIndex() (result)
+//@   requires [open] logOpen
 //@   ensures result == Llast
 //@ iface Log.NextIndex() (result)
+//@   requires [open] logOpen
 //@   ensures result == Llast + 1
 //@ iface Log.LastTerm() (result)
+//@   requires [open] logOpen
 //@   ensures result == Lterm[Llast]
 //@ iface Log.Size() (result)
+//@   requires [open] logOpen
 //@   ensures result == Llast - Lfirst
 //@ iface Log.Contains(index) (result)
+//@   requires [open] logOpen
 //@   ensures result == inLog(index)
 //@ iface Log.GetEntry(index) (e, err)
 //@   ensures inLog(index) ==> err == nil && e != nil && e.Index == index && e.Term == Lterm[index] && e.Data == Ldata[index] && e.EntryType == Ltyp[index]
@@ -123,6 +130,7 @@ package raft
 //@ inv [I7] persTerm == r.currentTerm && persVote == r.votedFor
 //@ inv [I13] r.state == Leader ==> forall fid string :: fid in r.followers ==> r.followers[fid].nextIndex <= Llast + 1
 //@ inv [Isnap] r.snapshot != nil ==> sfWriter[r.snapshot] && !sfPublished[r.snapshot]
+//@ inv [Iopen] (r.state != Shutdown ==> logOpen) && (r.configuration == nil ==> logOpen)
 //@ inv [I11] r.operationManager != nil && r.operationManager.leaderLease != nil
 //@ inv [I11b] r.operationManager.pendingReadOnly != nil && r.operationManager.pendingReplicated != nil
 //@ inv [I11c] forall o *Operation :: o in r.operationManager.pendingReadOnly ==> o != nil
@@ -137,6 +145,7 @@ package raft
 // S8 (per section, not a rely): an atomic section that takes the node out of the leader state leaves
 // it with empty tables of pending futures (they were answered with ErrNotLeader).
 //@ sectguar [S8] old(r.state) == Leader && r.state != Leader && r.state != Shutdown ==> (forall k uint64 :: !(k in r.operationManager.pendingReplicated)) && (forall o *Operation :: !(o in r.operationManager.pendingReadOnly))
+//@ guar [Gopen] old(logOpen) && r.state != Shutdown ==> logOpen
 //@ guar [Gclk] now >= old(now)
 // GL (leader append-only): used as rely under assumption A-LEAD-ONCE (a node does not enter the
 // leader state twice in one term), without which it is not transitive.
@@ -430,11 +439,13 @@ package raft
 // ===========================================================================================
 
 //@ iface Log.Open() (err)
-//@   modifies Lfirst, Llast, Lterm, Ltyp, Ldata
+//@   modifies Lfirst, Llast, Lterm, Ltyp, Ldata, logOpen
 //@ iface Log.Replay() (err)
-//@   modifies Lfirst, Llast, Lterm, Ltyp, Ldata
-//@   ensures err == nil ==> 0 <= Lfirst && Lfirst <= Llast
+//@   modifies Lfirst, Llast, Lterm, Ltyp, Ldata, logOpen
+//@   ensures err == nil ==> 0 <= Lfirst && Lfirst <= Llast && logOpen
 //@ iface Log.Close() (err)
+//@   modifies logOpen
+//@   ensures !logOpen
 //@ iface StateMachine.NeedSnapshot(logSize) (result)
 //@ iface Transport.DecodeConfiguration(data) (configuration, err)
 //@   ensures ioOK ==> err == nil
@@ -887,3 +898,7 @@ package raft
 //@ func Raft.Stop
 //@ func Raft.cancelConfigurationChange
 //@   flags inline lockheld
+
+//@ func Raft.Bootstrap
+//@   flags inv
+//@   requires r.transport != nil && r.log != nil && r.logger != nil
